@@ -46,6 +46,7 @@ type rangeEnv struct {
 	phiMemo    map[*ssa.Phi][2]*big.Int
 	thresholds []int64
 	depth      int
+	cellHi     map[string]*big.Int // value invariants of named struct cells (path suffix -> max), justified by other rules
 }
 
 func newRangeEnv(fn *ssa.Function) *rangeEnv {
@@ -329,28 +330,47 @@ func (r *rangeEnv) rng(v ssa.Value, at *ssa.BasicBlock) (lo, hi *big.Int) {
 			}
 			return true
 		}
-		// inductive lower bound: 0, then -1 (range-loop index)
+		// inductive bounds: candidate lower bounds 0, -1 (range-loop index), candidate upper bounds from the
+		// comparison constants of the function (ascending); pairs first, then one-sided
+		found := false
+		los := []*big.Int{tlo}
 		if tlo.Sign() < 0 {
-			for _, cand := range []int64{0, -1} {
-				if try(bigOf(cand), thi) {
-					lo = bigOf(cand)
+			los = []*big.Int{bigOf(0), bigOf(-1)}
+		}
+		for _, l := range los {
+			for _, cand := range r.thresholdList() {
+				cb := bigOf(cand)
+				if cb.Cmp(l) < 0 || cb.Cmp(thi) >= 0 {
+					continue
+				}
+				if try(l, cb) {
+					lo, hi, found = l, cb, true
+					break
+				}
+			}
+			if found {
+				break
+			}
+		}
+		if !found && tlo.Sign() < 0 {
+			for _, l := range los {
+				if try(l, thi) {
+					lo = l
 					break
 				}
 			}
 		}
-		// inductive upper bound from the comparison constants of the function (ascending)
-		for _, cand := range r.thresholdList() {
-			cb := bigOf(cand)
-			if cb.Cmp(lo) < 0 || cb.Cmp(thi) >= 0 {
-				continue
-			}
-			if try(lo, cb) {
-				hi = cb
-				break
-			}
-		}
 		if len(r.assume) == 0 {
 			r.phiMemo[a] = [2]*big.Int{lo, hi}
+		}
+	}
+	// value invariants of named cells (e.g. a parsed Content-Length <= 2^24, rule R + who-parses)
+	if u, ok := v.(*ssa.UnOp); ok && u.Op == token.MUL && r.cellHi != nil {
+		p := addrPath(u.X)
+		for suf, mx := range r.cellHi {
+			if strings.HasSuffix(p, suf) {
+				hi = minBig(hi, mx)
+			}
 		}
 	}
 	// refinement 1: byte sets
